@@ -177,7 +177,7 @@ Qed.
 (* non-vacuity: provider 0 serves "_t.", provider 1 serves "_b.", all further ones (idle) are of type "_c."; they register,
    create, update and complete their probes in alternation; one browser of "_t." and one of "_b." listen to everything.
    Both providers end confirmed and each browser meets [follows] for its provider. *)
-Definition P0 : nat -> other := fun j =>
+Definition Fam0 : nat -> other := fun j =>
   match j with
   | O => mkOther [95; 116; 46]%N (fresh_comp [118; 109]%N []) []
   | S O => mkOther [95; 98; 46]%N (fresh_comp [119]%N []) []
@@ -189,7 +189,7 @@ Definition B0 : list bnode :=
 
 Example symmetric_nonvacuous :
   exists P bs, netS P bs /\ pv_confirmed (cp_prov (o_comp (P 0%nat))) = true /\ h_reg (cp_host (o_comp (P 1%nat))) = true
-    /\ length (o_link (P 0%nat)) = 3%nat /\ map bn_type bs = map bn_type B0 /\ forall j, o_type (P j) = o_type (P0 j).
+    /\ length (o_link (P 0%nat)) = 3%nat /\ map bn_type bs = map bn_type B0 /\ forall j, o_type (P j) = o_type (Fam0 j).
 Proof.
   (* five steps only: the state terms nest (each step mentions the previous family five times), so the cost of checking
      this example grows about sixfold per step *)
@@ -199,7 +199,7 @@ Proof.
       * eapply (nS_act _ _ 0 2000 2000 (EvApi PNewProv)).
         -- eapply (nS_act _ _ 1 2000 2000 (EvTimer T_REG)).
            ++ eapply (nS_act _ _ 0 2000 2000 (EvTimer T_REG)).
-              ** apply (nS_init P0 B0).
+              ** apply (nS_init Fam0 B0).
                  --- intros [|[|j]]; eexists; eexists; split; reflexivity.
                  --- repeat constructor.
               ** exact I.
@@ -218,7 +218,7 @@ Proof.
 Qed.
 
 (* ... and with those types each of the two browsers meets [follows] for its provider ([follows] only reads the types) *)
-Example symmetric_follows P b0 b1 : (forall j, o_type (P j) = o_type (P0 j)) -> map bn_type [b0; b1] = map bn_type B0 ->
+Example symmetric_follows P b0 b1 : (forall j, o_type (P j) = o_type (Fam0 j)) -> map bn_type [b0; b1] = map bn_type B0 ->
   follows P 0 b0 /\ follows P 1 b1.
 Proof.
   intros HP E. cbn [map B0 bn_type] in E. injection E as E0 E1. unfold follows. rewrite E0, E1, !HP. split.
